@@ -176,6 +176,9 @@ fn select_variants() -> Vec<Variant<SelectStatement>> {
         v("lock_shared", |s: &mut SelectStatement| { s.lock_shared(); }, |s| { s.lock(LockType::Share); }),
         v("lock_exclusive", |s: &mut SelectStatement| { s.lock_exclusive(); }, |s| { s.lock(LockType::Update); }),
         v("unions", |s: &mut SelectStatement| { s.unions([(UnionType::Distinct, sub()), (UnionType::Except, sub())]); }, |s| { s.union(UnionType::Distinct, sub()).union(UnionType::Except, sub()); }),
+        // moving the statement out with take() and continuing with the moved value is the same as never moving it
+        v("take-roundtrip", |s: &mut SelectStatement| { let t = s.take(); *s = t; s.order_by(a("b"), Order::Asc); }, |s| { s.order_by(a("b"), Order::Asc); }),
+        v("take-leaves-new", |s: &mut SelectStatement| { let _ = s.take(); s.column(a("a")).from(a("t1")); }, |s| { *s = Query::select(); s.column(a("a")).from(a("t1")); }),
         v("limit-twice", |s: &mut SelectStatement| { s.limit(7).limit(2); }, |s| { s.limit(2); }),
         v("offset-twice", |s: &mut SelectStatement| { s.offset(7).offset(2); }, |s| { s.offset(2); }),
     ]
